@@ -399,9 +399,28 @@ def gen():
         kw = _one([k for k in c.keywords if k.arg == 'position'], 'position= keyword')
         if not (len(c.args) == 1 and src_of(c.args[0]) == 'data' and len(c.keywords) == 1):
             raise Unsupported('from_data does not replace exactly the position of data')
-        r = _one(_stmts(f, ast.Return), 'return in VCFBuffer.from_data').value
-        if src_of(r) != 'super().from_data(data)':
-            raise Unsupported('from_data does not hand the replaced table to super().from_data')
+        rets = _stmts(f, ast.Return)
+        if len(rets) == 1:
+            # form before /repo 1078c5e: the replaced table goes to DelimitedBuffer.from_data
+            if src_of(rets[0].value) != 'super().from_data(data)':
+                raise Unsupported('from_data does not hand the replaced table to super().from_data')
+        else:
+            # repaired form (1078c5e): DelimitedBuffer.from_data inlined - lazy tables are materialised first, the
+            # columns of the REPLACED table are listed in field order, a lazily parsed info object becomes its text,
+            # and the list goes to dump_csv.  Every statement is checked literally (fail closed).
+            want = ['if isinstance(data, LazyBNPDataClass):\n    return cls.from_data(data.get_data_object())',
+                    None,
+                    'data_dict = [(field.type, getattr(data, field.name)) for field in dataclasses.fields(data)]',
+                    'data_dict = [(str, InfoBuffer.as_text(value)) if isinstance(value, LazyBNPDataClass) else (field_type, value) for field_type, value in data_dict]',
+                    'return dump_csv(data_dict, cls.DELIMITER)']
+            body = [b for b in f.body if not (isinstance(b, ast.Expr) and isinstance(b.value, ast.Constant))]
+            if len(body) != len(want):
+                raise Unsupported('VCFBuffer.from_data has %d statements, expected %d' % (len(body), len(want)))
+            for st, w in zip(body, want):
+                if w is not None and ast.unparse(st) != w:
+                    raise Unsupported('VCFBuffer.from_data statement changed: %s' % ast.unparse(st))
+            if not (isinstance(body[1], ast.Assign) and src_of(body[1].targets[0]) == 'data' and body[1].value is c):
+                raise Unsupported('the table handed on is not the one with the replaced position')
         return K03(f, {'data.position': 'p'}).define('gen_vcf_pos_eager', ['p'], kw.value)
     _emit(defs, 'gen_vcf_pos_eager', vcf_eager)
 
